@@ -19,8 +19,8 @@ ASSUMPTIONS = ["auto-generated send ids (random UUIDs) are projected away", "fra
 
 def budget(tier):
     if tier == "thorough":
-        return {"examples": 12000, "min_nontrivial": 1000}
-    return {"examples": 350, "min_nontrivial": 100}
+        return {"examples": 12000, "exh_states": 6, "min_nontrivial": 1000}
+    return {"examples": 350, "exh_states": 5, "min_nontrivial": 100}
 
 
 def proj(t):
@@ -28,8 +28,8 @@ def proj(t):
     return [e[:4] if e[0] == 'ev' else e for e in t]
 
 
-def check_case(ctx, ch, events):
-    xml = ch.to_xml()
+def check_case(ctx, ch, events, dm=None):
+    xml = ch.to_xml(dm)
     a = run_engine(ctx, xml, "large", events)
     b = run_engine(ctx, xml, "fast", events)
     m, exp = run_model(ch, events)
@@ -64,9 +64,19 @@ def check_case(ctx, ch, events):
 
 def shard_main(ctx):
     p = ctx.params
+    try:
+        for ch in gen.enum_small_charts(p["exh_states"], 2, ctx.shard, ctx.nshards, only_parallel_above=p["exh_states"] - 2):
+            check_case(ctx, ch, ['a', 'a'], dm='null')
+        ctx.exhaustive = True
+    except Failure as f:
+        ctx.failures.append({"kind": f.kind, "detail": f.detail, "case": case_repr(ch, ['a', 'a'])})
+        ctx.exhaustive = False
+        return
     o = gen.GenOpts()
     ctx.run_hypothesis([gen.charts(o, 'lua'), gen.event_histories()],
                        lambda ch, evs: check_case(ctx, ch, evs), p["examples"] // 2, case_repr, name="plain")
+    ctx.run_hypothesis([gen.charts(gen.history_profile(), 'null'), gen.event_histories(12, ['a', 'b'])],
+                       lambda ch, evs: check_case(ctx, ch, evs, dm='null'), p["examples"], case_repr, name="history")
     o2 = gen.GenOpts(faults=True)
     ctx.run_hypothesis([gen.charts(o2, 'lua'), gen.event_histories()],
                        lambda ch, evs: check_case(ctx, ch, evs), p["examples"] // 2, case_repr, name="faults")
